@@ -293,7 +293,14 @@ def dispatchLine (st : DState) (line : String) : DState × List String :=
               if (kv? "leaked" rt).isSome then mon st "borrow-leaked-after-drop"
               else match bs.find? (fun b => (b.2 && !ws.contains b.1) || !(rs.contains b.1 || ws.contains b.1)) with
                 | some b => mon st s!"fetch-borrows-undeclared {b.1}:{if b.2 then "x" else "s"}"
-                | none => (st, [])
+                | none =>
+                  -- "exactly what it declares": every declared write is held exclusively, every declared read at least shared
+                  match ws.find? (fun w => !(bs.any (fun b => b.1 == w && b.2))) with
+                  | some w => mon st s!"declared-write-not-borrowed {w}"
+                  | none =>
+                    match rs.find? (fun r => !(bs.any (fun b => b.1 == r))) with
+                    | some r => mon st s!"declared-read-not-borrowed {r}"
+                    | none => (st, [])
             | _, _, _ => mon st "malformed-decl"
         (st, o1 ++ o2)
     | _ => bad "unparsable op"
